@@ -36,7 +36,7 @@ ALL_KERNELS = ["transform_dynmat_to_fc", "perm_trans_symmetrize_fc", "perm_trans
 # by units that live in the checks of the properties those kernels serve; they are run here as well, under this property's id
 REF_UNITS = [("c02", ("c_vs_py", "tric2", "211", True, False)), ("c02", ("c_vs_py", "tric2", "nd4", True, False)), ("c02", ("c_vs_py", "tric2", "211", True, True)),
              ("c12", ("c_vs_py", "tric2", "211")), ("c12", ("wang_c_vs_py", "tric2", "211")),
-             ("c11", ("c_vs_py", 0)), ("c10", ("kernel", 0, (2, 2, 2))), ("c07", ("tric2", "211", 1))]
+             ("c11", ("c_vs_py", 0)), ("c11", ("tables", 0)), ("c10", ("kernel", 0, (2, 2, 2))), ("c07", ("tric2", "211", 1))]
 REF_UNITS_THOROUGH = [("c02", ("c_vs_py", "cscl", "311", True, False)), ("c02", ("c_vs_py", "nacl8i", "111", True, True)), ("c12", ("c_vs_py", "hex2", "111")),
                       ("c12", ("wang_c_vs_py", "hex2", "211")), ("c10", ("kernel", 1, (2, 2, 2))), ("c07", ("hex2", "211", 1)), ("c07", ("cscl", "211", 2))]
 
